@@ -86,15 +86,17 @@ func effKey(es []eff) string {
 func elementSides(c *Ctx) (apply, revert *ir.Func) {
 	effectProg = c.P
 	for _, f := range c.P.MethodsOf("chain", "DBStore") {
-		if exported(f) || f.Type.Params.NumFields() != 1 {
+		if exported(f) || f.Type.Params == nil {
 			continue
 		}
-		t := f.Info().TypeOf(f.Type.Params.List[0].Type)
-		if ir.IsNamed(t, ir.PkgPath("consensus"), "ApplyUpdate") {
-			apply = f
-		}
-		if ir.IsNamed(t, ir.PkgPath("consensus"), "RevertUpdate") {
-			revert = f
+		for _, fld := range f.Type.Params.List {
+			t := f.Info().TypeOf(fld.Type)
+			if ir.IsNamed(t, ir.PkgPath("consensus"), "ApplyUpdate") {
+				apply = f
+			}
+			if ir.IsNamed(t, ir.PkgPath("consensus"), "RevertUpdate") {
+				revert = f
+			}
 		}
 	}
 	if apply == nil || revert == nil {
@@ -105,12 +107,21 @@ func elementSides(c *Ctx) (apply, revert *ir.Func) {
 	return vs.Of(apply), vs.Of(revert)
 }
 
-// classify the role of a DBStore effect method by its signature.
+// effectRole classifies an element effect of the store: a function of package
+// chain without results whose parameters are one element ("put"), or one id
+// with an optional window height and an optional order flag — then it records
+// an expiration when its body appends the id to a stored list ("putExp"),
+// removes one when it rewrites a raw list without doing so ("delExp"), and
+// deletes an element otherwise ("del"). The receiver may be the store or a
+// small value the store hands out (a list handle that already knows its window).
 func effectRole(fn *types.Func) string {
-	if fn == nil || recvNamed(fn) == nil || recvNamed(fn).Obj().Name() != "DBStore" {
+	if fn == nil || fn.Pkg() == nil || fn.Pkg().Path() != ir.PkgPath("chain") || fn.Exported() {
 		return ""
 	}
 	sig := fn.Type().(*types.Signature)
+	if sig.Recv() == nil || sig.Results().Len() != 0 {
+		return ""
+	}
 	ps := sig.Params()
 	isID := func(t types.Type) bool {
 		n := ir.NamedOf(t)
@@ -126,32 +137,60 @@ func effectRole(fn *types.Func) string {
 	}
 	isU64 := func(t types.Type) bool { b, ok := t.Underlying().(*types.Basic); return ok && b.Kind() == types.Uint64 }
 	isBool := func(t types.Type) bool { b, ok := t.Underlying().(*types.Basic); return ok && b.Kind() == types.Bool }
-	switch ps.Len() {
-	case 1:
-		if sig.Results().Len() != 0 {
+	onStore := recvNamed(fn) != nil && recvNamed(fn).Obj().Name() == "DBStore"
+	if ps.Len() == 1 && isElem(ps.At(0).Type()) && onStore {
+		return "put"
+	}
+	if ps.Len() == 0 || ps.Len() > 3 || !isID(ps.At(0).Type()) {
+		return ""
+	}
+	for i := 1; i < ps.Len(); i++ {
+		if t := ps.At(i).Type(); !isU64(t) && !isBool(t) {
 			return ""
 		}
-		if isElem(ps.At(0).Type()) {
-			return "put"
-		}
-		if isID(ps.At(0).Type()) {
-			return "del"
-		}
-	case 2:
-		if isID(ps.At(0).Type()) && isU64(ps.At(1).Type()) && sig.Results().Len() == 0 {
-			// recording and removing an expiration have the same signature: the one that appends the id to
-			// the stored list records it
-			if f := effectProg.FuncOf(fn); f != nil && len(idAppends(f)) > 0 {
-				return "putExp"
-			}
-			return "delExp"
-		}
-	case 3:
-		if isID(ps.At(0).Type()) && isU64(ps.At(1).Type()) && isBool(ps.At(2).Type()) {
-			return "putExp"
+	}
+	f := effectProg.FuncOf(fn)
+	if f == nil {
+		return ""
+	}
+	if len(idAppends(f)) > 0 {
+		return "putExp"
+	}
+	raw := false
+	for _, call := range f.Calls(false) {
+		if call.Fn != nil && (call.Fn.Name() == "putRaw" || call.Fn.Name() == "getRaw") {
+			raw = true
 		}
 	}
+	switch {
+	case raw:
+		return "delExp"
+	case onStore && ps.Len() == 1:
+		return "del"
+	}
 	return ""
+}
+
+// windowOperand: the window height an expiration effect is about: its uint64
+// argument, or the uint64 argument of the call that produced its receiver.
+func windowOperand(f *ir.Func, call ir.Call) ast.Expr {
+	isU64 := func(e ast.Expr) bool {
+		b, ok := f.TypeOf(e).Underlying().(*types.Basic)
+		return ok && b.Kind() == types.Uint64
+	}
+	for _, a := range call.Expr.Args {
+		if isU64(a) {
+			return a
+		}
+	}
+	if rc, ok := ast.Unparen(origin(f, call.Recv())).(*ast.CallExpr); ok {
+		for _, a := range rc.Args {
+			if isU64(a) {
+				return a
+			}
+		}
+	}
+	return nil
 }
 
 // effectProg is the program effectRole resolves helper bodies in (set by getStoreRoles' users before analysis).
@@ -371,10 +410,14 @@ func analyseSide(c *Ctx, f *ir.Func) map[string]*diffLoop {
 				case "put":
 					e.who = who(call.Expr.Args[0])
 				case "putExp":
-					e.who = who(call.Expr.Args[1])
+					if w := windowOperand(f, call); w != nil {
+						e.who = who(w)
+					}
 					e.flag = expirationOrder(c.P, f, call)
 				case "delExp":
-					e.who = who(call.Expr.Args[1])
+					if w := windowOperand(f, call); w != nil {
+						e.who = who(w)
+					}
 				}
 				for _, wn := range winNodes {
 					be := ast.Unparen(wn.AST.(ast.Expr)).(*ast.BinaryExpr)
@@ -527,34 +570,71 @@ func c02r1(c *Ctx) {
 
 func c02r2(c *Ctx) {
 	s := getStoreRoles(c.P)
-	af, rf := elementSides(c)
+	elementSides(c) // (sets up the effect classification)
+	// ApplyBlock / RevertBlock with everything but the element effects expanded: the gate may sit in the exported
+	// method, in the element function, or in a predicate of its own
+	vs := c.P.Views("chain", ir.ExpandOpt{Key: "element-effects", Stop: func(fn *types.Func) bool { return effectRole(fn) != "" }})
 	ob := c.Ob(s.apply, "same-height-gate", s.apply.Body.Pos())
-	gate := func(f *ir.Func, callee *ir.Func) string {
+	gate := func(base *ir.Func) string {
+		f := vs.Of(base)
 		g := f.Graph()
-		for _, call := range f.CallsTo(false, callee.Obj) {
-			n := g.NodeContaining(call.Pos())
-			for _, m := range g.Nodes {
-				if m.Block == nil || m.Block.Cond != m.AST || len(m.Succs) != 2 {
-					continue
+		c.VisitGraph(f)
+		var effects []*cfgx.Node
+		for _, n := range g.Nodes {
+			for _, call := range f.NodeCalls(n) {
+				if effectRole(call.Fn) != "" {
+					effects = append(effects, n)
 				}
-				if !strings.Contains(ir.ExprString(m.AST.(ast.Expr)), "RequireHeight") {
-					continue
-				}
-				if f.OnlyVia(n, []*cfgx.Edge{m.Succs[0]}) {
-					be, ok := ast.Unparen(m.AST.(ast.Expr)).(*ast.BinaryExpr)
-					if !ok {
-						return "?"
+			}
+		}
+		if len(effects) == 0 {
+			return ""
+		}
+		for _, m := range g.Nodes {
+			if m.Block == nil || m.Block.Cond != m.AST || len(m.Succs) != 2 {
+				continue
+			}
+			if !strings.Contains(ir.ExprString(m.AST.(ast.Expr)), "RequireHeight") {
+				continue
+			}
+			be, ok := ast.Unparen(m.AST.(ast.Expr)).(*ast.BinaryExpr)
+			if !ok {
+				continue
+			}
+			for i, e := range m.Succs {
+				all := true
+				for _, n := range effects {
+					if !f.OnlyVia(n, []*cfgx.Edge{e}) {
+						all = false
 					}
-					// normalise: <state param>.Index.Height OP <recv>.n.HardforkV2.RequireHeight
-					return fmt.Sprintf("%s %s %s", shape(f, be.X), be.Op, shape(f, be.Y))
 				}
+				if !all {
+					continue
+				}
+				// normalise: <state>.Index.Height OP <recv>.n.HardforkV2.RequireHeight, as seen on the passing side
+				op := be.Op
+				if i == 1 {
+					switch op {
+					case token.LSS:
+						op = token.GEQ
+					case token.LEQ:
+						op = token.GTR
+					case token.GTR:
+						op = token.LEQ
+					case token.GEQ:
+						op = token.LSS
+					case token.EQL:
+						op = token.NEQ
+					case token.NEQ:
+						op = token.EQL
+					}
+				}
+				return fmt.Sprintf("%s %s %s", shape(f, be.X), op, shape(f, be.Y))
 			}
 		}
 		return ""
 	}
-	ga, gr := gate(s.apply, af), gate(s.revert, rf)
-	c.VisitGraph(s.apply)
-	c.VisitGraph(s.revert)
+	ga, gr := gate(s.apply), gate(s.revert)
 	ob.Check(ga != "" && ga == gr, nil, "DBStore.ApplyBlock gates element work with %q but RevertBlock with %q: elements applied are not reverted (or vice versa) around the v2 require height", ga, gr)
 }
 
